@@ -2039,6 +2039,23 @@ func (c *ConcCtx) buildPrefix(e *Exec) {
 	c.stuck = Or(stuckAny...)
 }
 
+// mainStuckAt: in the prefix (deadlock) encoding, "the harness's main thread has executed everything before one of
+// its blocking steps located in the given source file and never executes that step".
+func (c *ConcCtx) mainStuckAt(file string) *Term {
+	var alts []*Term
+	var before []*Term // guard(ev') -> executed(ev') for the main thread's events seen so far
+	for _, ev := range c.events {
+		if ev.Thread != 0 {
+			continue
+		}
+		if strings.Contains(ev.Site, file) {
+			alts = append(alts, And(append([]*Term{ev.Guard, Not(c.xvar(ev))}, before...)...))
+		}
+		before = append(before, Implies(ev.Guard, c.xvar(ev)))
+	}
+	return Or(alts...)
+}
+
 // writePrefixTrace prints the deadlocked prefix: executed events in clock order and, per thread, where it is stuck.
 func (c *ConcCtx) writePrefixTrace(e *Exec, dir string, asserts []*Term, timeoutS int) {
 	var extra []*Term
